@@ -221,6 +221,14 @@ func unmodelledTarget(t *valgen.Ty, gt *valgen.GT) bool {
 	return false
 }
 
+// isBigInt: a big.Int, possibly behind pointers, bound to the column itself
+func isBigInt(v *valgen.Val) bool {
+	for v.Tag == "ptr" {
+		v = v.Elems[0]
+	}
+	return v.Tag == "big"
+}
+
 // ---------- the run ----------
 
 func sizeClass(t *valgen.Ty) string {
@@ -295,7 +303,9 @@ func main() {
 		cls := valgen.Classify(p, t, v)
 		ans := emit("enc "+tv, "enc/"+sizeClass(t)+"/"+strings.Fields(exec("enc " + tv))[0])
 		emit("cls "+tv, "cls/"+cls)
-		if cls == "clean" && (strings.HasPrefix(ans, "ok") || ans == "null") {
+		// (a panic on a documented input is a failing input of the property as well: the specification has an answer;
+		// so is an error for a big.Int, which after the repair of KF-C12-2 is refused exactly when the column cannot hold it)
+		if cls == "clean" && (strings.HasPrefix(ans, "ok") || ans == "null" || ans == "crash" || (ans == "err" && isBigInt(v))) {
 			emit("spec "+tv, "spec/"+sizeClass(t)+fmt.Sprintf("/v%d", p))
 		}
 		// decode direction: what the real encoder produced (and truncations of it), into several targets
